@@ -148,13 +148,21 @@ def data_tag(prog):
     obs = []
     files = ('core/directives_data.cpp', 'core/directives_include.cpp')
     n_emit = 0
+    from rules.passsize import pass2_blocks
     for fn in prog.functions(lambda f: f.file in files and f.blocks):
         k = 0
+        p2 = pass2_blocks(fn)
         for c in sorted(fn.calls(), key=lambda x: x['i']):
             q = (callee(c) or '').split('(')[0]
             if q in ('AsmContext::memory_write_inc', 'AsmContext::memory_write'):
                 k += 1
                 n_emit += 1
+                w_ = fn.where.get(c['i'])
+                if w_ is not None and w_[0] not in p2:
+                    obs.append(Ob('DATA-TAG', fn.file, c['l'], fn.q, 'emit#%d' % k, VIOLATED,
+                                  '`%s` is only executed while asm_context->pass == 1: pass 2 leaves whatever pass 1 (or an earlier '
+                                  'statement of pass 2) put at these addresses' % show(c)[:60]))
+                    continue
                 tag = const(call_args(c)[-1])
                 ok = tag == -2
                 obs.append(Ob('DATA-TAG', fn.file, c['l'], fn.q, 'emit#%d' % k, DISCHARGED if ok else VIOLATED,
